@@ -41,3 +41,22 @@ Print Assumptions reservation_discipline.
 Example buffer_get_respects_reservation :
   let '(b, h) := run_h KBuffer [(1, 7); (3, 0); (2, 0)] in h_del h = [] /\ b_reserved b = true /\ vals (b_items b) = [7].
 Proof. vm_compute. repeat split; reflexivity. Qed.
+
+(* limiter_node's counters (LimModel).  For every threshold and every sequence of puts (admitted or not, accepted or rejected by the successor) and
+   positive decrements, arriving in any order — in particular decrements larger than the current count while puts are in flight:
+   my_count + my_tries never exceeds the threshold, and the messages forwarded minus ALL decrements requested never exceed my_count
+   (a pending future decrement included), hence never the threshold. *)
+From OTV Require Import LimModel LimProofs.
+Theorem limiter_never_exceeds_threshold : forall th ops, 0 <= th ->
+  let n := lrun (linit th) ops in
+  0 <= l_count n /\ l_count n + l_tries n <= th /\ l_fwd n - l_req n <= l_count n - l_fdec n /\ l_fwd n - l_req n <= th.
+Proof.
+  intros th ops Ht n.
+  assert (HI : LInv (linit th)) by (unfold LInv, linit; cbn; lia).
+  destruct (lrun_inv ops (linit th) Ht HI) as [(H1 & H2 & H3 & H4 & H5) E]. fold n in H1, H2, H3, H4, H5, E. cbn in E. rewrite E in *.
+  repeat split; auto; lia.
+Qed.
+Print Assumptions limiter_never_exceeds_threshold.
+
+Example limiter_example : run_lim [3; 1;0; 2;0; 1;0; 4;5; 2;0] = [1;0;1;0; 1;1;0;0; 1;1;1;0; 1;0;1;2; 1;0;0;1].
+Proof. vm_compute. reflexivity. Qed.
